@@ -19,41 +19,61 @@ import (
 	"github.com/prometheus/common/model"
 )
 
-// index contains map of fingerprints to fingerprints.
-// The keys are fingerprints of the equal labels of source alerts.
-// The values are fingerprints of the source alerts.
+// index maps the fingerprint of the equal labels of source alerts to the
+// fingerprints of all cached source alerts that carry these equal labels.
+// Several source alerts can share their equal labels; whether any of them
+// inhibits a target depends on which of them is firing at lookup time, so all
+// of them are kept.
 // For more info see comments on inhibitor and InhibitRule.
 type index struct {
 	mtx   sync.RWMutex
-	items map[model.Fingerprint]model.Fingerprint
+	items map[model.Fingerprint]map[model.Fingerprint]struct{}
 }
 
 func newIndex() *index {
 	return &index{
-		items: make(map[model.Fingerprint]model.Fingerprint),
+		items: make(map[model.Fingerprint]map[model.Fingerprint]struct{}),
 	}
 }
 
-func (c *index) Get(key model.Fingerprint) (model.Fingerprint, bool) {
+// Get returns the fingerprints of the source alerts indexed under key.
+func (c *index) Get(key model.Fingerprint) []model.Fingerprint {
 	c.mtx.RLock()
 	defer c.mtx.RUnlock()
 
-	fp, ok := c.items[key]
-	return fp, ok
+	fps := make([]model.Fingerprint, 0, len(c.items[key]))
+	for fp := range c.items[key] {
+		fps = append(fps, fp)
+	}
+	return fps
 }
 
-func (c *index) Set(key, value model.Fingerprint) {
+// Add indexes the source alert fingerprint value under key.
+func (c *index) Add(key, value model.Fingerprint) {
 	c.mtx.Lock()
 	defer c.mtx.Unlock()
 
-	c.items[key] = value
+	fps, ok := c.items[key]
+	if !ok {
+		fps = make(map[model.Fingerprint]struct{})
+		c.items[key] = fps
+	}
+	fps[value] = struct{}{}
 }
 
-func (c *index) Delete(key model.Fingerprint) {
+// Remove drops the source alert fingerprint value from key.
+func (c *index) Remove(key, value model.Fingerprint) {
 	c.mtx.Lock()
 	defer c.mtx.Unlock()
 
-	delete(c.items, key)
+	fps, ok := c.items[key]
+	if !ok {
+		return
+	}
+	delete(fps, value)
+	if len(fps) == 0 {
+		delete(c.items, key)
+	}
 }
 
 func (c *index) Len() int {
